@@ -350,8 +350,18 @@ func (c *Compiler) Compile(node parser.Node) error {
 				return err
 			}
 		}
+		// the element count is a two-byte operand
+		if len(node.Elements) > maxOperand2 {
+			return c.errorf(node, "too many elements in array literal: %d (limit %d)",
+				len(node.Elements), maxOperand2)
+		}
 		c.emit(node, parser.OpArray, len(node.Elements))
 	case *parser.MapLit:
+		// the key/value count is a two-byte operand
+		if len(node.Elements)*2 > maxOperand2 {
+			return c.errorf(node, "too many elements in map literal: %d (limit %d)",
+				len(node.Elements), maxOperand2/2)
+		}
 		for _, elt := range node.Elements {
 			// key
 			if len(elt.Key) > MaxStringLen {
